@@ -394,6 +394,11 @@ pub fn run_cli(dir: &Path, name: &str, source: &[u8], spec: &CompressSpec, inj: 
             }
         }
     }
+    if inj.seed % 7 == 3 {
+        // paths spelled relative to the working directory (the temp file name derives from
+        // the output path as it was given)
+        run.relativize_args(((inj.seed >> 5) % 2) as u8);
+    }
     if spec.buffered.is_none() && inj.seed % 5 == 2 {
         // default --buffered-chunks on a single-CPU machine
         run.one_cpu = Some(inj.seed as usize >> 4);
